@@ -69,6 +69,14 @@ CHECKS = {
               "model tied to the code on a malformed stream comparing (type, class_name, field_name / missing / unknown); oracle: "
               "isinstance JSONWizardError, str(e) returns, independent path-based attribution for scalar positions"),
         technique='Lean 4 proof over a hand model + generated lattice + differential correspondence', ref='4 C14'),
+    'C17': dict(
+        text=("Lean theorems over a model of both pattern engines (default: generated pattern_to_dt incl. the '-'/'+' time variant; v1: "
+              "generated load_to_pattern with class-level generation state): value = strptime under the first matching pattern converted "
+              "to the annotated class, ISO precedence, neither -> error naming all patterns, v1 zone attached, dump/reload under a named "
+              "ISO law, element-wise lifting through list/tuple/dict/Optional, each position uses its own pattern (fold invariant over the "
+              "field list); witnesses of the four repaired defects under quirk flags; model tied to the code over a 52-pattern catalogue x "
+              "targets x zones x positions x document modes with per-run quirk probes"),
+        technique='Lean 4 proof over a hand model + differential correspondence + quirk probes', ref='4 C17'),
     'C20': dict(
         text=("Lean theorems over an interleaving model of the lock-free lazy initialisation (fill entries, publish flag last; build, "
               "publish with one store; scan a snapshot): for any number of threads and any schedule every finished call returns the "
